@@ -303,3 +303,95 @@ pub fn vol_case_result(case: &VolCase) -> CaseResult {
     classes.insert(format!("clients_{}", case.clients), 1);
     CaseResult { nontrivial: failure.is_none() && commands >= 1000, classes, suppressed: BTreeMap::new(), failure }
 }
+
+// ---------------------------------------------------------------------------------------------
+// C01 at volume: a full cache of thousands of light keys, a stream of puts that each evict, and readers that poll
+// total_weight_used() all the time
+
+#[derive(Clone, Debug, PartialEq, Eq, Hash, Serialize, Deserialize)]
+pub struct PressureCase {
+    pub keys: u32,
+    pub shards: usize,
+    pub capacity: usize,
+    pub cmd_buf: usize,
+    pub readers: u8,
+    pub fresh: u32,
+    pub weight: i64,
+}
+
+pub fn pressure_case_strategy(thorough: bool) -> BoxedStrategy<PressureCase> {
+    let keys = if thorough { prop_oneof![Just(500u32), Just(4_000), Just(30_000)].boxed() } else { prop_oneof![Just(500u32), Just(2_000), Just(8_000)].boxed() };
+    (keys, prop_oneof![Just(2usize), Just(16), Just(256)], prop_oneof![Just(16usize), Just(1 << 14)], prop_oneof![Just(1usize), Just(64), Just(4096)], 1u8..=3, prop_oneof![Just(2_000u32), Just(6_000)], 1i64..=3)
+        .prop_map(|(keys, shards, capacity, cmd_buf, readers, fresh, weight)| PressureCase { keys, shards, capacity, cmd_buf, readers, fresh, weight }).boxed()
+}
+
+/// Returns (observations of the readers, failure).
+pub fn run_pressure_case(case: &PressureCase) -> (u64, Option<Failure>) {
+    let limit = case.keys as i64 * case.weight;
+    let cfg = Cfg { counters: 4096, capacity: case.capacity, max_weight: limit, shards: case.shards, cmd_buf: case.cmd_buf, pool: 4, buf: 64, tick_us: 1000,
+        hash: HashMode::Identity, weight_mode: WeightMode::Default, start_ns: 0, noise_readers: 0, prelude: None };
+    let inst = Instance::new();
+    let clock = HClock::new(BASE_SECS * 1_000_000_000);
+    let cache = Arc::new(crate::seq::build_cache(&cfg, &clock, &inst));
+    verif::install(None);
+    let stop = Arc::new(std::sync::atomic::AtomicBool::new(false));
+    let result = (|| -> Result<u64, Failure> {
+        let stalled = |what: &str| Failure::new("STALL", "stall/ack", format!("the last acknowledgement of {} never completed", what));
+        let mut last = None;
+        for key in 0..case.keys as u64 { last = cache.put_with_weight(key, key, case.weight).ok().or(last); }
+        if let Some(ack) = last { await_ack(&ack, &inst).map_err(|_| stalled("the fill"))?; }
+        let used = cache.total_weight_used();
+        if used != limit { return Err(Failure::new("C05", "C05/volume/fill", format!("{} keys of weight {} were put into a cache of weight {}: total weight {}", case.keys, case.weight, limit, used))); }
+        let observed: Vec<(i64, i64, u64)> = std::thread::scope(|scope| {
+            let readers: Vec<_> = (0..case.readers).map(|_| {
+                let (cache, stop) = (cache.clone(), stop.clone());
+                scope.spawn(move || {
+                    let (mut low, mut high, mut count) = (i64::MAX, i64::MIN, 0u64);
+                    while !stop.load(Ordering::Acquire) {
+                        let used = cache.total_weight_used();
+                        low = low.min(used); high = high.max(used); count += 1;
+                    }
+                    (low, high, count)
+                })
+            }).collect();
+            // every put of a fresh key needs an eviction (the cache is exactly full); every fourth op lowers a weight or deletes
+            // (the readers are stopped whatever happens here: a panic of a call must not leave them spinning)
+            let written = std::panic::catch_unwind(std::panic::AssertUnwindSafe(|| {
+                let mut last = None;
+                for index in 0..case.fresh as u64 {
+                    let key = case.keys as u64 + index;
+                    last = cache.put_with_weight(key, key, case.weight).ok().or(last);
+                    if index % 4 == 1 { last = cache.delete(index).ok().or(last); }
+                    // (with a value: the fresh key may have been refused or evicted meanwhile, then this acts as a put)
+                    if index % 4 == 3 && case.weight > 1 { last = cache.put_or_update(PutOrUpdateRequestBuilder::new(key).value(key).weight(case.weight - 1).build()).ok().or(last); }
+                }
+                match last { Some(ack) => await_ack(&ack, &inst).is_ok(), None => true }
+            }));
+            stop.store(true, Ordering::Release);
+            let waited = written.unwrap_or(false);
+            let mut observed: Vec<(i64, i64, u64)> = readers.into_iter().map(|reader| reader.join().unwrap_or((0, 0, 0))).collect();
+            if !waited { observed.push((i64::MIN, i64::MIN, 0)); }
+            observed
+        });
+        if observed.iter().any(|(low, high, count)| *count == 0 && *low == i64::MIN && *high == i64::MIN) { return Err(stalled("the stream of evicting puts")); }
+        let observations: u64 = observed.iter().map(|(_, _, count)| *count).sum();
+        for (low, high, count) in &observed {
+            if *count > 0 && (*high > limit || *low < 0) {
+                return Err(Failure::new("C01", "C01/volume/monitor", format!("a reader polling total_weight_used() while {} fresh keys were put into a full cache of {} keys (weight limit {}) observed values from {} to {} in {} readings: outside [0, {}]", case.fresh, case.keys, limit, low, high, count, limit)));
+            }
+        }
+        if inst.has_panicked() { return Err(Failure::new("C17", "C17/background-panic", format!("{:?}", inst.panics()))); }
+        Ok(observations)
+    })();
+    stop.store(true, Ordering::Release);
+    let _ = std::panic::catch_unwind(std::panic::AssertUnwindSafe(|| cache.shutdown()));
+    match result { Ok(observations) => (observations, None), Err(failure) => (0, Some(failure)) }
+}
+
+pub fn pressure_case_result(case: &PressureCase) -> CaseResult {
+    let (observations, failure) = run_pressure_case(case);
+    let mut classes = BTreeMap::new();
+    classes.insert(format!("keys_{}", case.keys), 1);
+    classes.insert(format!("shards_{}", case.shards), 1);
+    CaseResult { nontrivial: failure.is_none() && observations >= 1000, classes, suppressed: BTreeMap::new(), failure }
+}
